@@ -10,6 +10,7 @@ followed, a loop body taken at most once) — so no interleaving point of the re
 schedules.
 -/
 import CaddyModel.Gen.UsagePoolSync
+import CaddyModel.Gen.LogWriterCloses
 
 namespace CaddyModel.C04
 
@@ -91,5 +92,14 @@ theorem yield_points_delimit_model_regions :
     (pathsOf "Range").all underPoolReadLock = true ∧ (pathsOf "Range").isEmpty = false ∧
     (pathsOf "References").all (fun p => p == ["RLock:up", "defer:RUnlock:up"]) = true ∧
     (pathsOf "References").isEmpty = false := by decide
+
+/-! ### the log-writer client: who closes a pooled writer -/
+
+/-- **regenerated tie, client side.** In logging.go the only call of a `Close` (or `Destruct`) method is the
+    one inside `writerDestructor.Destruct` — the destructor the pool runs at the last release.  No part of the
+    log set-up or tear-down glue closes a writer itself (`Model.logSetupOp`: towards the pool a log set-up is one
+    acquisition, whatever its outcome); a set-up error path that closes "its" writer breaks this. -/
+theorem pooled_writer_closed_only_by_destructor_matches_source :
+    Gen.logWriterCloseSites = [("Destruct", "Close")] := by decide
 
 end CaddyModel.C04
